@@ -657,10 +657,22 @@ def fold_bitset_parser(ctx, key, sty):
     toks = toks[:NTOK]
     bits = {oracle.card_word(r, s_): oracle.bit_for(r, s_) for (r, s_) in oracle.deck_order()}
     nb = 0
+    site_bad = {}
+    sites_ = [o for o in ex.obligations if not (o.cond[0] == "c" and o.cond[1])]
     for sep in (" ", "\t \n", "\u00a0", "\u2003", "\u3000 "):
         for n in (list(range(0, 10)) + [13, 27, 52, 53, 57, 58] if sep == " " else range(0, 10)):
             t = sep.join(toks[:n])
             env = {"text": C(t, "str"), "$str": StrModel.handler}
+            for o in sites_:
+                k_ = (o.fn, o.kind, o.line)
+                if site_bad.get(k_):
+                    continue
+                try:
+                    if all(cval(evaluate(pdb, c, env)) for c in o.pc) and not cval(evaluate(pdb, o.cond, env)):
+                        site_bad[k_] = "%d tokens" % n
+                except (Uncertified, IndexError):
+                    site_bad[k_] = "%d tokens" % n
+                site_bad.setdefault(k_, None)
             got = cval(evaluate(pdb, ret, env))
             exp = 0
             for x in toks[:n]:
@@ -676,6 +688,9 @@ def fold_bitset_parser(ctx, key, sty):
     ex2.max_tokens = 3
     ret2, _ = ex2.summarise(key, [atom("text", "str")], sty, State())
     misuse += [m_ for m_ in text_misuse([ret2] + [c for o in ex2.obligations if not (o.cond[0] == "c" and o.cond[1]) for c in (o.cond,) + tuple(o.pc)], "fn:" + kfi_)]
+    for (fn_, kind_, line_), bad_ in site_bad.items():
+        rep.ob(("C12.total" if rep.prop == "C12" else "C15.no-panic"), "BinaryCard::from_index: %s %s L%s" % (short(fn_), kind_, line_), bad_ is None,
+               "panic site (%s, line %s) of the set parser is reached and fails on a text of %s" % (kind_, line_, bad_), pdb.where(fn_))
     if misuse:
         rep.ob("C12.bitset-parser" if rep.prop == "C12" else "C15.from_text", "reads", False, "BinaryCard::from_index reads the text other than token by token (%s)" % "; ".join(misuse[:3]), pdb.where(key))
     return ex, NTOK, nb
@@ -851,6 +866,8 @@ def check_C12(ctx):
                     else:
                         slots = arr_of(r[2][0]) if vn == "Ok" else None
                         ok = slots is not None and [cval(x) for x in slots] == [expected_card(x) for x in tk[:n]]
+                        if not ok and len(tk) > n and vn == "Err":
+                            ok = True       # (the property says nothing about surplus tokens: rejecting them is allowed)
                     if not ok:
                         nb += 1
                         bad = bad or t
@@ -903,12 +920,38 @@ def check_C12(ctx):
                     ok = not some
                 else:
                     ok = some and [cval(x) for x in arr_of(r[2][0])] == [expected_card(x) for x in tk[:5]]
+                    if not ok and len(tk) > 5 and not some:
+                        ok = True           # (surplus tokens: unspecified)
                 nb += 0 if ok else 1
             rep.ob("C12.hand-parser", "parse::five_from_index", nb == 0, "five_from_index is wrong on %d token layouts" % nb, pdb.where(key))
             kfi_, _st = ctx.method("u32", "from_index", PC)
             so_ = ctx.summ(key, [("v", atom("text", "str"))], opaque={kfi_})
             misuse = text_misuse([so_.ret] + [c for o in so_.obligations if not (o.cond[0] == "c" and o.cond[1]) for c in (o.cond,) + tuple(o.pc)], "fn:" + kfi_)
             rep.ob("C12.hand-parser.reads", "parse::five_from_index", not misuse, "five_from_index reads the text other than token by token (%s)" % "; ".join(misuse[:3]), pdb.where(key))
+            # the parsed cards are payload (in token order, never compared or computed with), and the panic sites hold
+            tcalls_ = {}
+            roots0 = [so_.ret] + [c for o in so_.obligations if not (o.cond[0] == "c" and o.cond[1]) for c in (o.cond,) + tuple(o.pc)]
+            for root in roots0:
+                for x in walk(root):
+                    if x[0] == "call" and x[1] == "fn:" + kfi_ and id(x) not in tcalls_:
+                        tcalls_[id(x)] = atom("$t%d" % len(tcalls_), "u32")
+            from .rank import value_use as _vu
+            _c, why_ = _vu([substitute(r_, lambda nd: tcalls_.get(id(nd))) for r_ in roots0], set(), {a_[1] for a_ in tcalls_.values()})
+            rep.ob("C12.hand-parser.payload", "parse::five_from_index", why_ is None, "five_from_index looks at the parsed cards (%s)" % why_, pdb.where(key))
+            for o in s_.obligations:
+                if o.cond[0] == "c" and o.cond[1]:
+                    continue
+                okall = True
+                for t in cases:
+                    env = {"text": C(t, "str"), "$str": StrModel.handler}
+                    try:
+                        if all(cval(evaluate(pdb, c, env)) for c in o.pc) and not cval(evaluate(pdb, o.cond, env)):
+                            okall = False
+                            break
+                    except (Uncertified, IndexError):
+                        okall = False
+                        break
+                rep.ob("C12.total", "%s %s L%s" % (short(o.fn), o.kind, o.line), okall, "panic site (%s) in %s is reachable for some token layout" % (o.kind, short(o.fn)), "%s line %s" % (pdb.where(o.fn), o.line))
         ctx.guard("C12.hand-parser.free", free)
         rep.floor("C12.hand-parser", cnt + 1, 7)
         rep.sample({"rule": "C12.hand-parser", "token_layouts": len(cases), "example": cases[3]})
@@ -1103,7 +1146,12 @@ def check_C15(ctx):
         for (path, n), nm in zip(CONTAINERS, ["from_two", "from_three", "from_four", "from_five", "from_six", "from_seven"]):
             key, sty = ctx.method("u64", nm, BC)
             h = ctx.hand(path, n)
-            r = ctx.summ(key, [("v", h)], sty, opaque={kck}).ret
+            sm_cv = ctx.summ(key, [("v", h)], sty, opaque={kck})
+            r = sm_cv.ret
+            # (total on every hand, repeats included: its own panic sites must hold for arbitrary words)
+            from .base import panic_free as _pf
+            from .cards import word_envs as _we
+            _pf(ctx, "C15.no-panic", sm_cv, [dict(e_, **{"$fn:" + kck: (lambda *a_: C(0, "u64"))}) for e_ in _we(n, False)] + [dict({"s%d" % i: 0x10008C29 for i in range(n)}, **{"$fn:" + kck: (lambda *a_: C(0, "u64"))})], False, nm)
             leaves = flatten_or(r, [])
             slots = []
             ok = True
